@@ -67,7 +67,8 @@ def full_stage(chk, pid, tier, seed):
         # vehicles whose route starts at the model epoch (no start_time at all, or the start-time constraint switched off) while stops
         # have windows: absolute times are left out of the output for them, the durations are not
         for i in range(80 if tier == "quick" else 2500):
-            inp, opts, feats = GF.gen_full(rng, "small" if i % 3 else "medium", force={"windows": True, "alternates": i % 4 == 0, "initial": False})
+            inp, opts, feats = GF.gen_full(rng, "small" if i % 3 else "medium",
+                                           force={"windows": True, "alternates": i % 2 == 0, "initial": False, "custom": True, "targets": i % 2 == 0})
             if i % 2:
                 opts["constraints"]["disable"]["vehicle_start_time"] = True
             else:
